@@ -330,6 +330,14 @@ func tables(repo string) {
 		return true
 	}
 	doc["backend_builtin_groups"] = collectClauses(repo, []string{"internal/backends/compiler_wat"}, isK)
+	// every case clause / comparison chain of the whole code base whose members are all token.K_ names
+	var kall []clause
+	for _, c := range collectClauses(repo, []string{"internal", "api"}, isK) {
+		if !strings.HasPrefix(c.Where, "internal/token/") {
+			kall = append(kall, c)
+		}
+	}
+	doc["k_name_clauses"] = kall
 	hasZh := func(names []string) bool {
 		for _, n := range names {
 			if strings.HasPrefix(n, "Zh_") {
